@@ -407,9 +407,19 @@ impl World {
                     ),
                 ));
             }
-            for child in path.iter().skip(1) {
-                let verdict = model::stability_verdict(&self.tree, self.threshold, self.testnet_like());
+            for (step, child) in path.iter().skip(1).enumerate() {
+                let mut verdict = model::stability_verdict(&self.tree, self.threshold, self.testnet_like());
                 self.stats.oracle_comparisons += 1;
+                if !verdict.allowed.contains(child) && step == 0 && before.ingesting.is_some() {
+                    // The anchor was mid-ingestion when this message began: the decision was
+                    // taken with the threshold in force when its ingestion started.
+                    if let Some(t0) = self.threshold_at_ingest_start {
+                        verdict = model::stability_verdict(&self.tree, t0, self.testnet_like());
+                        if verdict.allowed.contains(child) {
+                            self.stats.probe("advance_completed_after_threshold_change");
+                        }
+                    }
+                }
                 if !verdict.allowed.contains(child) {
                     return Err(violation(
                         "C03",
